@@ -136,12 +136,13 @@ class ConveyorBelt(Edge):
           return len(self.belt.items)+len(self.belt.ready_items) == self.belt.capacity
 
     def can_get(self):
-        """Check if an item can be retrieved from the belt."""
-        #first_item_to_go_out = self.items[0] if self.items else None
-        if not self.out_buf.items:
+        """
+        True iff a reserve_get issued now would be granted at once: an item waits at the exit
+        that no granted retrieval reservation has claimed, and no earlier request is waiting.
+        """
+        if self.belt.reserve_get_queue:
             return False
-        else:
-           return True
+        return len(self.belt.ready_items) > len(self.belt.reservations_get)
 
     def is_stalled(self):
           """Check if the belt is stalled due to time constraints."""
@@ -151,12 +152,12 @@ class ConveyorBelt(Edge):
             return False
 
     def can_put(self):
-        """Check if an item can be added to the belt."""
-        if not self.inp_buf.items:
-            return True
-        else:
-            return False
-    
+        """
+        True iff a reserve_put issued now would be granted at once (room on the belt, entry gap
+        elapsed, belt not stopped, no earlier request waiting).
+        """
+        return self.belt.would_admit()
+
     def reserve_put(self):
        return self.belt.reserve_put()
     
